@@ -61,6 +61,49 @@ func corner() []pipe.Scenario {
 		Gens: []pipe.Gen{{Name: "g1", Steps: map[string]pipe.Step{"example.com/m T": {Body: "var V = 1\n"}}}}})
 	out = append(out, importChains()...)
 	out = append(out, lineDirectiveCases()...)
+	out = append(out, otherModules()...)
+	return out
+}
+
+// otherModules: the module depends on packages of OTHER modules that lie on disk, writable, next to or inside it
+// (replace => directory): a nested module whose path extends the main module's at a slash (example.com/m/api in m/api),
+// siblings whose path merely starts with the same characters (example.com/mkit, example.com/m-client), and a module with
+// an unrelated path inside the tree.  They hold tagged types, previous and stale <base>.* files and a gengo.sum of their
+// own.  Whatever is requested in the main module, with or without All, every file of them is byte-identical afterwards.
+func otherModules() []pipe.Scenario {
+	on := []string{"g1"}
+	ext := func(dir, path, name string) pipe.ExtMod {
+		return pipe.ExtMod{Dir: dir, ModPath: path, GoVer: "1.21",
+			Pkgs: []pipe.Pkg{{Dir: "", Name: name, Types: []pipe.Type{{Name: "X", Enabled: on}}}},
+			Files: []pipe.File{{Path: "zz_generated.retired.go", Content: "package " + name + "\n\n// stale output in another module\n"},
+				{Path: "zz_generated.g1.go", Content: "package " + name + "\n\n// previous output of g1 in another module\n"}}}
+	}
+	all := []pipe.ExtMod{ext("api", "example.com/m/api", "api"), ext("../mkit", "example.com/mkit", "mkit"),
+		ext("../m-client", "example.com/m-client", "client"), ext("third_party/other", "example.org/other", "other"), ext("v2", "example.com/m/v2", "mv2")}
+	all[1].Files = append(all[1].Files, pipe.File{Path: "gengo.sum", Content: "example.com/mkit h1:theirs=\n"})
+	steps := map[string]pipe.Step{"example.com/m/app A": {Body: "var V = 1\n"}, "example.com/m/internal/conf C": {Body: "var V = 1\n"}}
+	for _, x := range all {
+		steps[x.ModPath+" X"] = pipe.Step{Body: "var V = 1\n"}
+	}
+	var out []pipe.Scenario
+	for _, pick := range [][]int{{0}, {1}, {2}, {3}, {4}, {0, 1}, {0, 1, 2, 3, 4}} {
+		m := pipe.Module{ModPath: "example.com/m", GoVer: "1.22", Pkgs: []pipe.Pkg{
+			{Dir: "app", Name: "app", Imports: []string{"internal/conf"}, Types: []pipe.Type{{Name: "A", Enabled: on}}},
+			{Dir: "internal/conf", Name: "conf", Types: []pipe.Type{{Name: "C", Enabled: on}}}},
+			Files: []pipe.File{{Path: "internal/conf/zz_generated.retired.go", Content: "package conf\n\n// stale output\n"}}}
+		for _, i := range pick {
+			m.Ext = append(m.Ext, all[i])
+			m.Pkgs[i%2].XImports = append(m.Pkgs[i%2].XImports, all[i].ModPath)
+		}
+		for _, allFlag := range []bool{true, false} {
+			for _, entry := range [][]string{{"./app"}, {"./..."}} {
+				if !allFlag && len(pick) > 1 && entry[0] == "./..." {
+					continue
+				}
+				out = append(out, pipe.Scenario{Module: m, Entry: entry, All: allFlag, Base: "zz_generated", Gens: []pipe.Gen{{Name: "g1", Alias: true, Steps: steps}}})
+			}
+		}
+	}
 	return out
 }
 
@@ -217,6 +260,9 @@ func (prop) Generate(r *core.RNG, tier string) []json.RawMessage {
 		if r.Chance(35) {
 			lineDirectives(r, &sc)
 		}
+		if r.Chance(25) {
+			pipe.AddForeign(r, &sc)
+		}
 		out = append(out, enc(sc))
 	}
 	return out
@@ -249,7 +295,13 @@ func (prop) Run(in json.RawMessage, scratch string) core.Result {
 	// "selected" is decided from the entrypoint patterns of the scenario, not taken from gengo's loader: the loader's
 	// direct flag is part of the code under test (pkg/types/load.go feeds the `!All && !direct` skip of Execute)
 	loaderWorld := obs.Run.World
-	reqWorld, differ := pipe.RequestedWorld(loaderWorld, sc.Entry)
+	// likewise "a package of the run" (selected directly or through All) is a package of the module the run was started
+	// in: which module a package belongs to is decided from the go.mod files of the scenario, not by the loader's "local" set
+	ownWorld, foreign := pipe.OwnWorld(loaderWorld, &sc.Module)
+	if len(foreign) > 0 {
+		res.Notes = append(res.Notes, "the loader reports packages of another module as local to the run: "+strings.Join(foreign, ", "))
+	}
+	reqWorld, differ := pipe.RequestedWorld(ownWorld, sc.Entry)
 	obs.Run.World = reqWorld
 	if len(differ) > 0 {
 		res.Notes = append(res.Notes, "the loader's direct flag differs from the entrypoint patterns for: "+strings.Join(differ, ", "))
@@ -386,6 +438,32 @@ func tags(sc pipe.Scenario, obs *pipe.Observation, sum pipe.Summary) []string {
 	}
 	if len(obs.Run.World.Pkgs) > 1 {
 		t = append(t, "multi-package")
+	}
+	for _, x := range sc.Module.Ext {
+		where, how := "nested", "unrelated-path"
+		if strings.HasPrefix(x.Dir, "../") {
+			where = "sibling"
+		}
+		switch {
+		case strings.HasPrefix(x.ModPath, sc.Module.ModPath+"/"):
+			how = "path-extends-at-slash"
+		case strings.HasPrefix(x.ModPath, sc.Module.ModPath):
+			how = "path-extends-last-element"
+		}
+		imported := false
+		for _, p := range sc.Module.Pkgs {
+			for _, im := range p.XImports {
+				imported = imported || im == x.ModPath || strings.HasPrefix(im, x.ModPath+"/")
+			}
+		}
+		if k := "other-module:" + where + ":" + how; !seen[k] {
+			seen[k] = true
+			t = append(t, k)
+		}
+		if imported && !seen["other-module:imported"] {
+			seen["other-module:imported"] = true
+			t = append(t, "other-module:imported")
+		}
 	}
 	names := map[string]bool{}
 	for _, g := range sc.Gens {
